@@ -181,6 +181,16 @@ impl<'a, R: BufRead> LogCat2DltMsgIterator<'a, R> {
     }
 }
 
+/// return the text after its first char
+///
+/// Used to skip the white space that follows the timestamp (`\s` of the regex matches multi-byte chars as well,
+/// so the text cannot be sliced at the byte offset + 1).
+fn skip_first_char(s: &str) -> &str {
+    let mut chars = s.chars();
+    chars.next();
+    chars.as_str()
+}
+
 /// Parse a timestamp in logcat monotonic format to a time in us.
 ///
 /// Expected format is x.y (x any number, y any number but expected 3 digits)
@@ -362,7 +372,9 @@ where
                                 ctid: self.ctid.to_owned(),
                             }),
                             payload,
-                            payload_text: Some(cap_str[loc_timestamp.1 + 1..].to_owned()),
+                            payload_text: Some(
+                                skip_first_char(&cap_str[loc_timestamp.1..]).to_owned(),
+                            ),
                             lifecycle: 0,
                         };
 
@@ -460,7 +472,9 @@ where
                                     ctid: self.ctid.to_owned(),
                                 }),
                                 payload,
-                                payload_text: Some(cap_str[loc_timestamp.1 + 1..].to_owned()),
+                                payload_text: Some(
+                                    skip_first_char(&cap_str[loc_timestamp.1..]).to_owned(),
+                                ),
                                 lifecycle: 0,
                             };
 
